@@ -704,3 +704,18 @@ package gorm
 //@   entry sdKeyLookups == 0
 //@   assert first-the-deleted-value: sdKeyLookups == 0 ==> arg1 == stmt.ReflectValue [C09]
 //@   assert then-the-model-value: sdKeyLookups >= 1 ==> ref(arg1.ptr) == uf("payloadRef", boxof(stmt.Model)) [C09]
+
+//@ # ---------- C05/C13/C03: several batches are one transaction ----------
+//@ # A failure (a hook error, a failed INSERT) in a later batch rolls back the earlier ones: the batches run
+//@ # without a wrapping transaction only when everything fits into one batch (whose own implicit transaction is
+//@ # enough) or when the default transaction is switched off.
+//@ site batches-without-a-wrapping-transaction
+//@   match call gorm.(*DB).CreateInBatches$1
+//@   in gorm.(*DB).CreateInBatches
+//@   min-sites 1
+//@   assert single-batch-or-transactions-off: tx.Config.SkipDefaultTransaction || reflectLen <= batchSize [C05,C13,C03]
+//@ site batches-in-a-wrapping-transaction
+//@   match call gorm.(*DB).Transaction
+//@   in gorm.(*DB).CreateInBatches
+//@   min-sites 1
+//@   assert the-batch-runner-is-the-block: true [C05,C13]
